@@ -9,6 +9,7 @@
         -> model=<res>;<res>;… db=<rows|.|-> [kf=<id>]
 -/
 import BlocV.Model.Mod.File
+import BlocV.Model.Mod.FileAbs
 import BlocV.Model.Mod.Sqlite
 
 namespace BlocV.DrvC18F
@@ -97,15 +98,38 @@ def showFileRes (op : File.Op) : File.Res → String
   | .undefinedSeq => "U!"
 
 /-- runs the ops (stopping after a hazard, which no call produces any more: `H:` would be reported as a violation
-    by the check); returns results (reversed), final world, known-finding tag -/
-def runFile : File.World → List File.Op → List String → Option String → List String × File.World × Option String
-  | w, [], acc, kf => (acc, w, kf)
-  | w, op :: ops, acc, kf =>
+    by the check); returns results (reversed), final world, known-finding tag, and the answers of the SPECIFICATION
+    (`Spec.File.sstep` on a stream state of its own, started from the abstraction of the handle after every successful
+    open / constructor; `*` = not a stream call, or no open stream, or after a `U!`) -/
+def runFile : File.World → Option Spec.File.SStream → List File.Op → List String → List String → Option String →
+    List String × List String × File.World × Option String
+  | w, _, [], acc, sacc, kf => (acc, sacc, w, kf)
+  | w, ss, op :: ops, acc, sacc, kf =>
     let (w', r) := File.step w op
     match r with
-    | .hazard _ => (showFileRes op r :: acc, w', kf)
-    | .undefinedSeq => (showFileRes op r :: acc, w', some KF_SEQ)
-    | _ => runFile w' ops (showFileRes op r :: acc) kf
+    | .hazard _ => (showFileRes op r :: acc, "*" :: sacc, w', kf)
+    | .undefinedSeq => (showFileRes op r :: acc, "*" :: sacc, w', some KF_SEQ)
+    | .unmodelled =>
+      match op with
+      -- an open / constructor outside the model (mode with `,` or the mmap flag `m`): the real handle is in a state the
+      -- model does not know; nothing after this point is compared (`U!` without a finding tag)
+      | .open _ _ | .ctor _ _ => ("U!" :: acc, "*" :: sacc, w', kf)
+      | _ => runFile w' ss ops (showFileRes op r :: acc) ("*" :: sacc) kf
+    | _ =>
+      -- the specification's side
+      let (ss', stok) :=
+        match op with
+        | .open _ _ | .ctor _ _ | .ctor0 | .close =>
+          ((match w'.h.file with | some f => some (File.absS w' f) | none => none), "*")
+        | _ =>
+          match ss with
+          | some s =>
+            if File.isStreamOp op then
+              let (s', sr) := Spec.File.sstep w.fs.maxOff s (File.toS op)
+              (some s', showFileRes op (File.resOf sr))
+            else (ss, "*")
+          | none => (none, "*")
+      runFile w' ss' ops (showFileRes op r :: acc) (stok :: sacc) kf
 
 def handleFil (maxOff pathHex init : String) (toks : List String) : String :=
   let path := unhex pathHex
@@ -115,9 +139,10 @@ def handleFil (maxOff pathHex init : String) (toks : List String) : String :=
   match toks.mapM (parseFileOp path) with
   | none => "bad-op"
   | some ops =>
-    let (acc, w', kf) := runFile w ops [] none
+    let (acc, sacc, w', kf) := runFile w none ops [] [] none
     let fin := match w'.content path with | none => "-" | some c => showDot c
-    "model=" ++ ";".intercalate acc.reverse ++ " final=" ++ fin ++ (match kf with | some k => " kf=" ++ k | none => "")
+    "model=" ++ ";".intercalate acc.reverse ++ " final=" ++ fin ++ " spec=" ++ ";".intercalate sacc.reverse ++
+      (match kf with | some k => " kf=" ++ k | none => "")
 
 /-! ### sql -/
 
@@ -166,6 +191,7 @@ def parseSqlOp (tok : String) : Option Sqlite.Op :=
   | ["io"] => some .isOpen
   | ["em"] => some .errmsg
   | ["cr"] => some .create
+  | ["cn"] => some .createNN
   | ["xn"] => some .execNull
   | ["in", a] => (parseArgs a).map .insert
   | ["qa"] => some .queryAll
